@@ -277,6 +277,31 @@ func TestC12(t *testing.T) {
 						return ""
 					}})
 			}
+			// (4b) the TLS 1.2 server really runs ECDHE on a curve the hello's supported_groups
+			// does not list (hook ForceCurve12) and signs it
+			if ch.Has(wire.ExtSupportedGroups) {
+				inGroups := map[uint16]bool{}
+				for _, x := range ch.Groups {
+					inGroups[x] = true
+				}
+				if g, ok := pickNot(rg, []uint16{0x0019, 0x0018, 0x0017, 0x001d}, inGroups); ok {
+					add(advCase{name: "tls12_unoffered_curve", max: tls.VersionTLS12, plan: func() *tls.VerifPlan { return &tls.VerifPlan{ForceCurve12: tls.CurveID(g)} },
+						value: func(cs tls.ConnectionState) string {
+							if c, ok := stateCurve(cs); ok && c == g {
+								return fmt.Sprintf("curve %#04x", g)
+							}
+							return ""
+						},
+						void: func(ch *wire.ClientHello) bool {
+							for _, x := range ch.Groups {
+								if x == g {
+									return true
+								}
+							}
+							return false
+						}})
+				}
+			}
 			// (6a) ALPN not offered in a TLS 1.2 ServerHello
 			add(advCase{name: "tls12_unoffered_alpn", max: tls.VersionTLS12, plan: func() *tls.VerifPlan {
 				return &tls.VerifPlan{RewriteOut: rewriteServerHello(func(sh *wire.ServerHello) bool {
